@@ -115,6 +115,6 @@ def run(ctx):
     shared.acceptor_branches(ctx, "C01-R6")
     for nm in ("accept_uni", "accept_bi"):
         f = A.find1(r"^wtransport::connection::Connection::%s::\{closure#0\}$" % nm)
-        with depth_limit(8):
+        with depth_limit(14):
             sg = [path_sig(p)[1] for p in nonpanic(walk(f)) if path_sig(p)[1].startswith("return Result::Ok(")]
         ctx.check("C01-R5", "Connection::%s wraps the driver's stream" % nm, len(sg) == 1 and "into_stream(" in sg[0] and "Driver::%s(" % nm in sg[0], "Connection::%s changed: %s" % (nm, sg), where(f))
